@@ -25,6 +25,8 @@ use c15_model::*;
 
 const THREADS: usize = 3;
 const WIDE_NAMES: usize = 48;
+/// a sequential child reports at most this many structural hashes of non-trivial cases
+const CHILD_HASH_CAP: usize = 60_000;
 const OPS_PER_THREAD: usize = 4;
 const PERTURB_US: u64 = 200;
 /// share of the soft wall-clock budget after which the native concurrent phase stops generating
@@ -115,7 +117,11 @@ impl C15 {
                     st.evaluations += j["evaluations"].as_u64().unwrap_or(0);
                     if let Some(c) = j["counters"].as_object() {
                         for (k, v) in c {
-                            st.add(k, v.as_u64().unwrap_or(0));
+                            if k.starts_with("max::") {
+                                st.max(k, v.as_u64().unwrap_or(0));
+                            } else {
+                                st.add(k, v.as_u64().unwrap_or(0));
+                            }
                         }
                     }
                     for h in j["distinct"].as_array().map(|a| a.as_slice()).unwrap_or(&[]) {
@@ -241,7 +247,11 @@ impl C15 {
             let (f, o) = run_seq(&ops, true);
             record_seq_obs(&o, st);
             if seq_nontrivial(&o) {
-                st.nontrivial(hash_of(&ops));
+                if st.distinct.len() < CHILD_HASH_CAP {
+                    st.nontrivial(hash_of(&ops));
+                } else {
+                    st.count("seq_nontrivial_random_sequences_beyond_the_per_shard_hash_cap(counted, not hashed)");
+                }
             }
             if let Some((clause, _, _)) = f {
                 st.count("seq_failing_sequences");
@@ -277,7 +287,11 @@ impl C15 {
             record_seq_obs(&o, st);
             st.max("max::seq_rules_stored_at_once", o.max_rules as u64);
             if seq_nontrivial(&o) {
-                st.nontrivial(hash_of(&ops));
+                if st.distinct.len() < CHILD_HASH_CAP {
+                    st.nontrivial(hash_of(&ops));
+                } else {
+                    st.count("seq_nontrivial_random_sequences_beyond_the_per_shard_hash_cap(counted, not hashed)");
+                }
             }
             if let Some((clause, _, _)) = f {
                 st.count("seq_failing_sequences");
@@ -291,7 +305,7 @@ impl C15 {
     }
 
     fn explore_concurrent(&self, cli: &Cli, st: &mut Stats) {
-        let per = cli.n(4_000, 60_000);
+        let per = cli.n(4_000, 40_000);
         let pos: Arc<Mutex<HashSet<u64>>> = Arc::new(Mutex::new(HashSet::new()));
         let wits: Arc<Mutex<HashSet<u64>>> = Arc::new(Mutex::new(HashSet::new()));
         sched::install(cli.seed, PERTURB_US);
